@@ -53,6 +53,7 @@ fn one_run<K: KeyLike>(case: &Case, arm_at: i64, st: &mut E4Stats) -> (i64, Vec<
         _ => None,
     };
     let mut clones: Vec<Sut<K>> = vec![];
+    let mut hashmap_lost = false;
     if let Some(s) = sut.as_mut() {
         for (i, op) in case.ops.iter().enumerate() {
             if !op.supported(kind) {
@@ -79,6 +80,9 @@ fn one_run<K: KeyLike>(case: &Case, arm_at: i64, st: &mut E4Stats) -> (i64, Vec<
                 }
                 _ => s.apply(op, i),
             }));
+            if std::env::var_os("VH_E4_TRACE").is_some() {
+                eprintln!("op {} {:?} -> {} (points so far {}, fired {:?})", i, op, if r.is_err() { "PANIC" } else { "ok" }, points_seen(), fired());
+            }
             if r.is_err() {
                 let _ = take_last_panic();
                 if !already && fired().is_some() {
@@ -90,11 +94,26 @@ fn one_run<K: KeyLike>(case: &Case, arm_at: i64, st: &mut E4Stats) -> (i64, Vec<
             if has_bad() {
                 break;
             }
+            if fired().is_some() {
+                // has the hash map itself lost track of entries? (std / hashbrown: a hasher that
+                // panics during an in-place rehash leaves `len()` counting entries that can no
+                // longer be found, and the map's iterators then run past the table). Everything
+                // that iterates or grows such a map is undefined behaviour, so the run stops
+                // here and the cache is leaked instead of dropped.
+                let lost = catch_unwind(AssertUnwindSafe(|| s.index_lost())).unwrap_or(0);
+                if lost > 0 {
+                    bad(format!("HASHMAP-LOST-ENTRIES: after the injected panic the hash index of an inner list counts {} entr(y/ies) it cannot find any more (std HashMap left inconsistent by a panicking hasher during an in-place rehash); iterating, growing or dropping it reads outside the table", lost));
+                    hashmap_lost = true;
+                    break;
+                }
+            }
         }
         // everything still reachable must be live
-        let _ = catch_unwind(AssertUnwindSafe(|| {
-            let _ = s.view();
-        }));
+        if !hashmap_lost {
+            let _ = catch_unwind(AssertUnwindSafe(|| {
+                let _ = s.view();
+            }));
+        }
         for c in clones.iter() {
             let _ = catch_unwind(AssertUnwindSafe(|| {
                 let _ = c.view();
@@ -102,6 +121,13 @@ fn one_run<K: KeyLike>(case: &Case, arm_at: i64, st: &mut E4Stats) -> (i64, Vec<
         }
     }
     let had_fired_before_drop = fired().is_some();
+    if hashmap_lost {
+        // dropping would iterate the inconsistent map: leak instead
+        std::mem::forget(sut.take());
+        while let Some(c) = clones.pop() {
+            std::mem::forget(c);
+        }
+    }
     // drop the clones and the cache (Drop of keys/values is user code too)
     while let Some(c) = clones.pop() {
         if catch_unwind(AssertUnwindSafe(move || drop(c))).is_err() {
@@ -143,7 +169,13 @@ pub fn run_e4<K: KeyLike>(case: &Case) -> CaseReport {
         return rep;
     }
     let mut nontrivial = false;
+    let only: Option<i64> = std::env::var("VH_E4_ONLY").ok().and_then(|s| s.parse().ok());
     for i in 0..n {
+        if let Some(o) = only {
+            if o != i {
+                continue;
+            }
+        }
         E4_CURRENT.with(|c| c.set((h, i)));
         let (_, bad, fired_at) = one_run::<K>(case, i, &mut st);
         st.armed_runs += 1;
@@ -160,7 +192,9 @@ pub fn run_e4<K: KeyLike>(case: &Case) -> CaseReport {
         if !bad.is_empty() {
             let at = fired_at.map(|x| if x < case.ops.len() { format!("during step {} {:?}", x, case.ops[x]) } else { "while dropping the cache".to_string() }).unwrap_or_else(|| "(not fired)".into());
             let pt = fired().map(|p| p.name()).unwrap_or("-");
-            let class = if bad.iter().any(|b| b.contains("double drop") || b.contains("drop of a non-live")) {
+            let class = if bad.iter().any(|b| b.contains("HASHMAP-LOST-ENTRIES")) {
+                "std-hashmap-lost-entries"
+            } else if bad.iter().any(|b| b.contains("double drop") || b.contains("drop of a non-live")) {
                 "double-drop"
             } else if bad.iter().any(|b| b.contains("written to after")) {
                 "write-after-free"
@@ -171,7 +205,7 @@ pub fn run_e4<K: KeyLike>(case: &Case) -> CaseReport {
                 prop: "C18",
                 step: fired_at.unwrap_or(0),
                 msg: format!("panic injected into user-code call #{i} ({pt}) {at}: {}", bad.join("; ")),
-                sig: format!("{}/{}/{}", kind.short(), pt, class),
+                sig: if class == "std-hashmap-lost-entries" { "any/hasher-panic/std-hashmap-lost-entries".to_string() } else { format!("{}/{}/{}", kind.short(), pt, class) },
             });
             break;
         }
